@@ -115,13 +115,34 @@ def _publish(ck, p):
         pubs = [(bi, t) for bi, t in f.calls() if inst_of(t) == B0 + "publish_diagnostics" and awaited(f, bi)]
         ok = bool(ups) and bool(pubs)
         detail = "updates=%d publishes=%d" % (len(ups), len(pubs))
-        for ub, ut in ups:
-            heads = [h for h, body in loops.items() if ub in body]
-            same = [pb for pb, pt in pubs if url_base(f, pv, pt["args"][1]) == url_base(f, pv, ut["args"][1])]
-            good, wit = cfg.every_path_passes(ub, same, to=heads + cfg.exits())
-            ok = ok and bool(same) and good
-        n += 1
-        ck.decide(rule, "Backend::did_change_configuration", ok, f.span, detail + "; each refresh is followed by a publish for the same url within the iteration: %s" % ok)
+        if not ups and not pubs:
+            # refresh + publish extracted into one awaited async helper (new since the reference tree)
+            from ..common import new_async_helper, helper_stage_calls
+            good_h = []
+            for hb, ht in f.calls():
+                body = new_async_helper(p, ht)
+                if body is None or not awaited(f, hb):
+                    continue
+                st_ = helper_stage_calls(p, body, ("refresh_document", "update_document", "update_document_from_file", "publish_diagnostics"))
+                names = [x[0] for x in st_]
+                if len(names) == 2 and names[0] != "publish_diagnostics" and names[1] == "publish_diagnostics":
+                    hpv = Prov(body)
+                    if url_base(body, hpv, st_[0][2]["args"][1]) == url_base(body, hpv, st_[1][2]["args"][1]):
+                        good_h.append(hb)
+            if good_h:
+                n += 1
+                ck.proved(rule, "Backend::did_change_configuration", f.span, "each document is refreshed and then published for the same url inside one awaited helper (%d site(s))" % len(good_h))
+                ups = None
+        if ups is None:
+            pass
+        else:
+          for ub, ut in ups:
+              heads = [h for h, body in loops.items() if ub in body]
+              same = [pb for pb, pt in pubs if url_base(f, pv, pt["args"][1]) == url_base(f, pv, ut["args"][1])]
+              good, wit = cfg.every_path_passes(ub, same, to=heads + cfg.exits())
+              ok = ok and bool(same) and good
+          n += 1
+          ck.decide(rule, "Backend::did_change_configuration", ok, f.span, detail + "; each refresh is followed by a publish for the same url within the iteration: %s" % ok)
     # removal handlers send an empty list
     for name in ("did_close", "did_change_watched_files", "shutdown"):
         f = handler(p, name)
